@@ -154,6 +154,18 @@ func c14check(st *c14state, height uint64, hasTx bool, outs []ecOut) (res string
 	return "ok"
 }
 
+func c14validateCoinbaseTx(height uint64, outs []ecOut) (ok bool) {
+	defer func() {
+		if r := recover(); r != nil {
+			ok = false
+		}
+	}()
+	tx := ecCoinbaseTx(height, outs)
+	blk := &bc.Block{BlockHeader: &bc.BlockHeader{Version: 1, Height: height}, Transactions: []*bc.Tx{tx.Tx}}
+	_, err := validation.ValidateTx(tx.Tx, blk, func(prog []byte) ([]byte, error) { return nil, fmt.Errorf("no converter") })
+	return err == nil
+}
+
 func c14total(m map[string]uint64) *big.Int {
 	t := new(big.Int)
 	for _, v := range m {
@@ -179,6 +191,7 @@ func c14line(c *Ctx, st *c14state, line string) {
 	case "ckpt":
 		st.c = &state.Checkpoint{Height: u(w[2]), Timestamp: u(w[3]), Status: ecStatus(w[1]), Votes: ecMap(ecParsePairs(w[4])), Rewards: ecMap(ecParsePairs(w[5]))}
 		st.c.Hash = bc.Hash{V0: st.c.Height, V1: 14}
+		st.pendingPay = nil
 		c.Op(line, "ok")
 	case "new":
 		st.c = state.NewCheckpoint(st.c)
@@ -248,7 +261,18 @@ func c14line(c *Ctx, st *c14state, line string) {
 		res := c14check(st, height, w[2] == "1", outs)
 		c.Op(line, res)
 		c.Count("check/" + res)
-		if res == "ok" {
+		// the property speaks about VALID blocks: ValidateBlock also runs ValidateTx on the
+		// coinbase transaction (which is what rejects output totals that wrap uint64/int64,
+		// while checkoutRewardCoinbase's own `outputMap[..] +=` is unchecked). The oracle below
+		// uses TRUE (math/big) sums, so it is evaluated when BOTH accept.
+		txOK := false
+		if res == "ok" && w[2] == "1" {
+			txOK = c14validateCoinbaseTx(height, outs)
+			if !txOK {
+				c.Count("check/ok-but-coinbase-tx-invalid")
+			}
+		}
+		if res == "ok" && txOK {
 			// oracle (b)
 			E := consensus.ActiveNetParams.BlocksOfEpoch
 			total := new(big.Int)
@@ -398,6 +422,13 @@ func c14case(c *Ctx) []string {
 	ls = append(ls, fmt.Sprintf("propose %d 51", height+1), "@checkproposed", "@mutants")
 	// a few non-boundary heights against the full table
 	ls = append(ls, fmt.Sprintf("propose %d 51", height+2), "@checkproposed")
+	if c.Rng.Intn(4) == 0 {
+		// a table whose entries are huge / whose total wraps uint64 (not reachable by accumulation,
+		// but the validator and the proposer must still agree and the oracle uses true sums)
+		big := []string{"a1:9223372036854775807,a2a2:9223372036854775807,51:12", "a1:18446744073709551615,51:1", "51:9223372036854775808", "a1:4611686018427387904,a2a2:4611686018427387904,00a3:4611686018427387904,6a:4611686018427387905"}[c.Rng.Intn(4)]
+		h := (startEpoch+10)*epoch + 1
+		ls = append(ls, fmt.Sprintf("ckpt u %d %d - %s", h-1, ts, big), fmt.Sprintf("propose %d 51", h), "@checkproposed", "@mutants")
+	}
 	return ls
 }
 
@@ -433,6 +464,27 @@ func c14mutants(c *Ctx, height uint64, outs []ecOut) []string {
 			m = cp()
 			m[k].amount = outs[k].amount - 1
 			m = append(m, ecOut{amount: 1, program: outs[k].program})
+			add(m, 1)
+		}
+		// wrap-around: replace one output by >= 3 outputs of the same program whose TRUE total is
+		// the original amount + 2^64 (each part <= 2^63-1), or + 2^63.. (parts above 2^63 too)
+		{
+			const m63 = uint64(1)<<63 - 1
+			m = append(cp()[:k:k], outs[k+1:]...)
+			a := outs[k].amount
+			if a <= m63-2 {
+				m = append(m, ecOut{amount: m63, program: outs[k].program}, ecOut{amount: m63, program: outs[k].program}, ecOut{amount: a + 2, program: outs[k].program})
+			} else {
+				m = append(m, ecOut{amount: 1 << 63, program: outs[k].program}, ecOut{amount: 1 << 63, program: outs[k].program}, ecOut{amount: a, program: outs[k].program})
+			}
+			if k == 0 {
+				// keep a first output so that the wrapped parts are not at position 0
+				m = append([]ecOut{{amount: 0, program: "ee"}}, m...)
+			}
+			add(m, 1)
+			m = append(cp(), ecOut{amount: 1 << 63, program: outs[k].program}, ecOut{amount: 1 << 63, program: outs[k].program})
+			add(m, 1)
+			m = append(cp(), ecOut{amount: m63, program: "ee"}, ecOut{amount: m63, program: "ee"}, ecOut{amount: 2, program: "ee"})
 			add(m, 1)
 		}
 		// drop an output
